@@ -91,6 +91,9 @@ def word_to_bits(w, lsb_first):
 N_SLICES = 268 * 2          # one slice = (entry rd, first symbol) x all second symbols
 
 
+SEEDED_SCALE = {"quick": 4, "thorough": 5}      # multiplies the run counts of the sampled families in plan()
+ENUMERATED = ('pairs', 'invalid')       # families whose size is the size of an enumeration
+
 def plan(tier):
     if tier == "quick":
         return [("pairs", 34), ("seq", 60), ("stream", 60), ("invalid", 8)]
